@@ -3,6 +3,6 @@
    extracted datatypes.  No Extract Constant, no further Extract Inductive. *)
 Require Extraction.
 Require Import ExtrOcamlBasic.
-From MW Require Import Num Assoc Rng Par CF Matrix Lin Warm Nbr Clu Tree Mab Sim SimRun SelfCheck.
+From MW Require Import Num Assoc Rng Par CF Matrix Lin Warm Nbr Clu Tree Mab Series Sim SimRun SelfCheck.
 Extraction Language OCaml.
-Extraction "mw.ml" QcNum cf_init lin_init nbr_init clu_init tree_init mkOracle mkMab step run mab_cold_arms m_arms effective_jobs partition_sizes starts sim_train_all sim_offline sim_online sim_offline_chunked sim_online_chunked mkBatch sim_evaluate arm_stats st_min st_mean st_max selfcheck_case.
+Extraction "mw.ml" QcNum cf_init lin_init nbr_init clu_init tree_init mkOracle mkMab step sstep run mab_cold_arms m_arms effective_jobs partition_sizes starts sim_train_all sim_offline sim_online sim_offline_chunked sim_online_chunked mkBatch sim_evaluate arm_stats st_min st_mean st_max selfcheck_case.
